@@ -1,6 +1,9 @@
 //! C07: substitution equals syntactic replacement of a variable by a function.
 //!
 //!   C07.sub <f> <g> <x>  =>  <bdd>|panic        f.substitute(x, g)
+//!
+//! Streams: boundary (few nodes embedded in 300 … 65 535 variables), exhaustive n <= 3, sampled families over
+//! 4-6 variables, structured g.
 #[path = "../common.rs"]
 mod common;
 use biodivine_lib_bdd::*;
@@ -35,12 +38,88 @@ fn lifted_tt(rng: &mut Rng64, n: usize, sub: &[usize], must: &[usize]) -> TT {
         r
     }).collect()
 }
+/// the canonical diagram of a truth table over `pos.len()` variables, embedded in a space of `n` variables:
+/// local variable i is placed at position `pos[i]` (strictly increasing), the terminals carry `n`
+fn embedded(n: usize, pos: &[usize], tt: &[bool]) -> Bdd {
+    let k = pos.len();
+    let nodes: Vec<(usize, usize, usize)> = canon_triples(k, tt).iter().enumerate()
+        .map(|(i, (v, l, h))| if i < 2 { (n, *l, *h) } else { (pos[*v], *l, *h) }).collect();
+    bdd_from_triples(&nodes)
+}
+/// truth table over `pos` of a Boolean formula given as a closure on the values at `pos`
+fn tt_over(k: usize, f: impl Fn(&[bool]) -> bool) -> TT { (0..(1usize << k)).map(|i| f(&val_of_index(k, i))).collect() }
+
+/// Boundary stream: few-node functions embedded in variable spaces at the top of the `u16` range (the clash
+/// path needs `num_vars + 1`) and a few mid-range ones. Lines stay short: only node triples are printed.
+fn boundary(thorough: bool, rng: &mut Rng64, out: &mut Out) {
+    let spaces: Vec<usize> = if thorough { vec![7, 300, 4000, 32767, 32768, 65531, 65532, 65533, 65534, 65535] }
+                             else { vec![300, 4000, 65532, 65533, 65534, 65535] };
+    for n in spaces {
+        // position sets (strictly increasing, all < n): bottom, top, straddling, x as the last variable
+        let mut sets: Vec<Vec<usize>> = vec![
+            vec![0, 1, 2], vec![n - 3, n - 2, n - 1], vec![0, 1, n - 1], vec![0, n - 2, n - 1],
+            vec![1, n / 2, n - 1], vec![n - 1], vec![0], vec![n - 2, n - 1], vec![0, n - 1],
+        ];
+        if thorough {
+            sets.push(vec![0, 1, 2, 3]); sets.push(vec![n - 4, n - 3, n - 2, n - 1]); sets.push(vec![0, 2, n - 3, n - 1]);
+            sets.push(vec![n / 2 - 1, n / 2, n / 2 + 1]); sets.push(vec![n - 3, n - 1]); sets.push(vec![1, n - 2]);
+        }
+        for pos in &sets {
+            let k = pos.len();
+            for xi in 0..k {
+                let x = pos[xi];
+                // f: depends on x (parity of everything; x and-ed / or-ed with the rest; random with x xor-ed in)
+                let mut fs: Vec<TT> = vec![
+                    tt_over(k, |v| v.iter().fold(false, |a, b| a ^ b)),
+                    tt_over(k, |v| v.iter().all(|b| *b)),
+                    tt_over(k, |v| !v[xi] || v.iter().enumerate().any(|(i, b)| i != xi && *b)),
+                ];
+                let rounds = if thorough { 6 } else { 2 };
+                for _ in 0..rounds { let r = random_tt(rng, k); fs.push(tt_over(k, |v| { let mut j = 0; for b in v { j = (j << 1) | (*b as usize); } r[j] ^ v[xi] })); }
+                // g over the same positions: clash (depends on x) and safe (does not)
+                let mut gs: Vec<(Vec<usize>, TT)> = vec![
+                    (pos.clone(), tt_over(k, |v| v[xi])),                                   // g = x
+                    (pos.clone(), tt_over(k, |v| !v[xi])),                                  // g = !x
+                    (pos.clone(), tt_over(k, |v| v.iter().fold(true, |a, b| a ^ b))),        // parity, clash
+                    (pos.clone(), tt_over(k, |v| v.iter().enumerate().any(|(i, b)| i != xi && *b))), // safe (or of the others)
+                    (pos.clone(), tt_over(k, |_| true)), (pos.clone(), tt_over(k, |_| false)),
+                ];
+                // g over foreign positions next to x / at the ends of the space (variables f does not mention)
+                let mut foreign: Vec<usize> = vec![];
+                for y in [x.wrapping_sub(1), x + 1, 0, n - 1, n - 2] { if y < n && !pos.contains(&y) && !foreign.contains(&y) { foreign.push(y); } }
+                for y in foreign {
+                    let mut q = vec![x, y]; q.sort();
+                    let (ix, iy) = if x < y { (0, 1) } else { (1, 0) };
+                    gs.push((q.clone(), tt_over(2, |v| v[ix] ^ v[iy])));   // clash, foreign variable
+                    gs.push((q.clone(), tt_over(2, |v| v[ix] && !v[iy])));
+                    gs.push((vec![y], tt_over(1, |v| v[0])));              // safe, foreign variable
+                }
+                for _ in 0..rounds { gs.push((pos.clone(), random_tt(rng, k))); }
+                for f in &fs {
+                    let fb = fmt_bdd(&embedded(n, pos, f));
+                    for (q, g) in &gs {
+                        if !thorough && rng.chance(1, 2) { continue; }
+                        run("C07.sub", &[fb.clone(), fmt_bdd(&embedded(n, q, g)), x.to_string()], out);
+                    }
+                }
+                // a variable that f does not mention (unchanged path), incl. the last variable of the space
+                let fb = fmt_bdd(&embedded(n, pos, &fs[0]));
+                for y in [n - 1, n / 2, 0] { if !pos.contains(&y) {
+                    run("C07.sub", &[fb.clone(), fmt_bdd(&embedded(n, &[y], &tt_over(1, |v| v[0]))), y.to_string()], out);
+                } }
+            }
+        }
+    }
+}
+
 fn random_subset(rng: &mut Rng64, n: usize) -> Vec<usize> {
     (0..n).filter(|_| rng.bool()).collect()
 }
 
 pub fn gen(tier: Tier, rng: &mut Rng64, out: &mut Out) {
     let thorough = tier == Tier::Thorough;
+    // ---------------- few-node operands at the top of the u16 variable range (and mid-range)
+    boundary(thorough, rng, out);
     // ---------------- all (f, g, x) over n <= 2 variables; n = 3: all 196 608 (thorough) / ~15 000 sampled (quick)
     for n in 0..=3usize {
         let count = 1u64 << (1u64 << n);
